@@ -52,7 +52,7 @@ pub fn one_chain(ctx: &WorkerCtx, rep: &mut WorkerReport, case_seed: u64, rounds
         let h = r.height;
         let m = r.max_ever;
         let n = pick_target(&mut rng, h, m);
-        let expect_accept = (n as i64) == h || ((n as i64) <= h && (n as i64) + 10 >= m);
+        let expect_accept = (n as i64) <= h && (n as i64) + 10 >= m;
         let orphan_start = r.log.len();
         // which ops are orphaned by this reorg: those of blocks > n on the surviving chain
         let orphaned_ops: Vec<Op> = r.chain.iter().skip(n as usize + 1).flatten().cloned().collect();
